@@ -31,7 +31,15 @@ class FakeSock:
 
     def bind(self, addr) -> None:  # noqa: ANN001
         w = CUR.world
-        self.addr = w.net.bind(NODE.get(), addr, self.family)
+        self.addr = w.net.bind(NODE.get(), (addr[0] or "0.0.0.0", addr[1]), self.family)  # noqa: S104
+
+    def sendto(self, data, addr) -> int:  # noqa: ANN001
+        # used by the broadcast bootstrapper only (beacons to 255.255.255.255:<every port>): nobody listens for broadcasts in
+        # the simulated world, the datagrams are counted and dropped
+        w = CUR.world
+        if w is not None:
+            w.broadcasts = getattr(w, "broadcasts", 0) + 1
+        return len(data)
 
     def getsockname(self):  # noqa: ANN201
         return self.addr
@@ -121,6 +129,9 @@ def install() -> None:
     import ipv8.messaging.interfaces.udp.endpoint as udpmod
     udpmod.socket = FakeSocketModule()
 
+    import ipv8.bootstrapping.udpbroadcast.bootstrapper as bcast
+    bcast.socket = FakeSock
+
     import ipv8.messaging.interfaces.lan_addresses.interfaces as lanif
     provs = lanif.get_providers()
     provs.clear()
@@ -143,6 +154,9 @@ def reset_for_world(world) -> None:  # noqa: ANN001
             ON_RESET.pop()()
         except Exception:  # noqa: BLE001, S110
             pass
+    import ipv8.bootstrapping.udpbroadcast.bootstrapper as bcast
+    bcast.socket = FakeSock
+
     import ipv8.messaging.interfaces.lan_addresses.interfaces as lanif
     provs = lanif.get_providers()
     if len(provs) != 1 or not isinstance(provs[0], SimAddressProvider):
